@@ -13,9 +13,9 @@ import solver_common as sc
 ID = 'C15'
 LEAN_MODULE = 'Proofs.C15'
 THEOREMS = ['Fsic.C15.' + n for n in [
-    'template_skeletons_equal', 'template_statements_equal', 'expressions_selected', 'selected_in_symbol_order',
-    'converter_called_once_each', 'converter_verbatim', 'indent_only_prefixes', 'no_equation_pass',
-    'lists_ignore_equations', 'empty_model_solves', 'empty_lists']]
+    'template_skeletons_equal', 'template_statements_equal', 'templates_parsed', 'expressions_selected',
+    'selected_in_symbol_order', 'converter_called_once_each', 'no_equation_no_code', 'no_equation_pass',
+    'indent_only_prefixes', 'converter_verbatim', 'lists_ignore_equations', 'empty_lists', 'empty_model_solves']]
 RULE = ('grammar programs (gen_scripts.gen_program with verbatim fragments and named periods) extended with fenced '
         'verbatim blocks (incl. blank lines and nested indentation), plus the empty script, verbatim-only scripts and '
         'symbol lists with the equation of one endogenous symbol removed; crossed with with_type_hints in {True,False} x '
